@@ -371,3 +371,22 @@ Definition wf_rconfig (rc : rconfig) : bool :=
   wf_upstreams (rc_upstreams rc) && forallb (rrule_ok (rc_upstreams rc)) (rc_request rc)
   && target_ok false (rc_upstreams rc) (rc_fallback rc) && routing_ok true (rc_upstreams rc) (rc_response rc)
   && forallb (fun t => negb (String.eqb t "")) (rc_upstreams rc).      (* an upstream without tag is refused *)
+
+(* ================================================================================================ *)
+(* From the chosen upstream to the transport that carries the question                                *)
+(* ================================================================================================ *)
+(* what makes an upstream the upstream it is: two configured upstreams may resolve to the same address and port and
+   still be different resolvers (other host name = other certificate / SNI, other path = other profile, other scheme) *)
+Record uid := { u_scheme : string; u_host : string; u_port : N; u_path : string }.
+Definition uid_same (a b : uid) : bool :=
+  String.eqb (u_scheme a) (u_scheme b) && String.eqb (u_host a) (u_host b) && (u_port a =? u_port b)
+  && String.eqb (u_path a) (u_path b).
+
+(* "sent to the upstream named by the rule": the transport (forwarder) that carries the k-th upstream query of a
+   history was set up for exactly the upstream chosen for that query *)
+Fixpoint carried_ok (chosen built : list uid) : bool :=
+  match chosen, built with
+  | [], [] => true
+  | c :: cs, b :: bs => uid_same c b && carried_ok cs bs
+  | _, _ => false
+  end.
